@@ -303,6 +303,15 @@ func genAllowed(r *vh.Rand) []string {
 	return []string{"@/allowed"}
 }
 
+// insideScratch: the cleaned request stays below the scratch root (the model's "/")
+func insideScratch(p string) bool {
+	if !strings.HasPrefix(p, "@") {
+		return true // relative and empty paths are refused lexically
+	}
+	c := filepath.Clean("/R" + p[1:])
+	return c == "/R" || strings.HasPrefix(c, "/R/")
+}
+
 func genCase(r *vh.Rand) kase {
 	k := kase{Tree: baseTree(), Allowed: genAllowed(r)}
 	for _, l := range optionalLinks {
@@ -312,6 +321,9 @@ func genCase(r *vh.Rand) kase {
 	}
 	ops := []string{"upload", "download", "list", "stat", "chmod", "delete", "delete"}
 	k.Req = request{Op: ops[r.Intn(len(ops))], Path: genPath(r)}
+	if !insideScratch(k.Req.Path) {
+		k.Req.Path = "@/allowed/sub/../pub.txt"
+	}
 	switch k.Req.Op {
 	case "upload":
 		k.Req.Data = "UP"
